@@ -100,6 +100,12 @@ func VH_C16_select() {
 	m.MkDir(src+"/"+x+"/"+q, 0715, 5, 6, 5)
 	m.MkFile(src+"/"+x+"/"+q+"/"+r, []byte("r"), 0644, 1, 1, 9000000000)
 	m.MkFile(src+"/"+y, []byte("y"), 0644, 1, 1, 9000000000)
+	// distinct xattrs on the directories and on the files below them (an ancestor created on demand
+	// must get its own, not a descendant's)
+	m.SetXattr(src+"/"+x, "user.dx", []byte("1"))
+	m.SetXattr(src+"/"+x+"/"+q, "user.dq", []byte("2"))
+	m.SetXattr(src+"/"+x+"/"+q+"/"+r, "user.fr", []byte("3"))
+	m.SetXattr(src+"/"+x+"/"+p, "user.fp", []byte("4"))
 	m.SetMtime(src+"/"+x+"/"+q, 8000000000)
 	m.SetMtime(src+"/"+x, 8000000000)
 	all := []string{x, x + "/" + p, e, x + "/" + q, x + "/" + q + "/" + r, y}
@@ -163,6 +169,13 @@ func VH_C16_select() {
 			v.Cover("on-demand-ancestor")
 			s, d := vh_findEntry(m.Snapshot(src), e), vh_findEntry(after, e)
 			v.Assert(d.Perm == s.Perm && d.Uid == s.Uid && d.Gid == s.Gid, "an ancestor created on demand carries the source directory's mode and owner")
+			sameX := len(d.XKeys) == len(s.XKeys)
+			for j := range s.XKeys {
+				if j < len(d.XKeys) {
+					sameX = sameX && d.XKeys[j] == s.XKeys[j] && string(d.XVals[j]) == string(s.XVals[j])
+				}
+			}
+			v.Assert(sameX, "an ancestor created on demand carries the source directory's xattrs")
 		}
 	}
 	v.Assert(len(after) <= len(all), "nothing outside the source's paths is created")
